@@ -1,5 +1,114 @@
 import QModel.Core
-/-! C11 — model (not built yet) -/
+import QModel.C10
+/-!
+# C11 — loss minimisation attains the constrained optimum (model)
+
+The backtracking iteration itself (`pgdbDir`, `isDoingForAlpha`, `backtrack`, `pgdbStep`, `pgdbLoop`, `errorValue`,
+`windowSum`, `isDoing`) is modelled in `QModel/C10.lean`, exactly as coded in
+`projected_gradient_descent_backtracking.py:229-356`; this file adds
+
+* the wrapper `calc_proj_physical_with_var` puts around the physical projection (qoperation.py:1009-1012, 1092-1096):
+  convert the variable to the stacked vector, project *there*, convert back — `projViaStacked`;
+* the objective built by the CVXPY-backed estimator (`interface/cvxpy/qtomography/standard/loss_function.py:247-270, 398-480`):
+  the affine probability model `p_i(x) = A_i x + b_i`, the per-schedule weights `c_i = N_i / N_total`
+  (`calc_num_ratios`), the uniform squared error `Σ_i c_i Σ_j (p_ij − q_ij)²` and the relative entropy
+  `Σ_i c_i Σ_{j : q_ij > eps} (q_ij log q_ij − q_ij log p_ij)` with `log` a parameter;
+* a one-dimensional ("ray") instantiation of the line search used to tie the acceptance rule to the real loss values
+  of every loss family.
+-/
 namespace QM.C11
-def handle (_args : List String) : Option String := none
+open QM.C10
+
+/-! ## the projection wrapper of `calc_proj_physical_with_var` -/
+
+/-- `convert_var_to_stacked_vector` → projection on stacked vectors → `convert_stacked_vector_to_var` -/
+def projViaStacked {W S : Type} (toStacked : W → S) (projS : S → S) (toVar : S → W) (v : W) : W :=
+  toVar (projS (toStacked v))
+
+/-! ## objective of the CVXPY-backed estimator -/
+
+section cvx
+variable {K : Type} [Add K] [Sub K] [Mul K] [Div K] [Zero K] [LT K] [DecidableLT K]
+
+/-- `calc_num_ratios(nums)`: `N_i / N_total` -/
+def numRatios (nums : List K) : List K := nums.map (· / lsum nums)
+
+/-- one schedule of `CvxpyUniformSquaredError.value_cvxpy`: `Σ_j (p_j − q_j)²` (`quad_over_lin(p − q, 1)`) -/
+def sqErr (p q : List K) : K := lsum ((p.zip q).map fun (a, b) => (a - b) * (a - b))
+
+/-- `CvxpyUniformSquaredError.value_cvxpy`: `Σ_i c_i Σ_j (p_ij − q_ij)²`; `ps` the model distributions at the point -/
+def cvxSquaredError (ratios : List K) (ps qs : List (List K)) : K :=
+  lsum ((ratios.zip (ps.zip qs)).map fun (c, pq) => c * sqErr pq.1 pq.2)
+
+/-- one schedule of `CvxpyRelativeEntropy.value_cvxpy`: `Σ_{j : q_j > eps} q_j (log q_j − log p_j)` -/
+def relEnt (log : K → K) (eps : K) (p q : List K) : K :=
+  lsum ((p.zip q).map fun (a, b) => if eps < b then b * log b - b * log a else 0)
+
+def cvxRelativeEntropy (log : K → K) (eps : K) (ratios : List K) (ps qs : List (List K)) : K :=
+  lsum ((ratios.zip (ps.zip qs)).map fun (c, pq) => c * relEnt log eps pq.1 pq.2)
+
+/-- identity-weight squared error of the projected-gradient estimators, in the same shape: `Σ_i Σ_j (p_ij − q_ij)²` -/
+def plainSquaredError (ps qs : List (List K)) : K :=
+  lsum ((ps.zip qs).map fun pq => sqErr pq.1 pq.2)
+
+end cvx
+
+/-! ## driver -/
+namespace Drv
+open QM.C10.Drv
+
+def parseLists? (s : String) : Option (List (List Rat)) :=
+  if s = "-" then some [] else (s.splitOn ";").mapM (parseList? parseRat?)
+
+/-- table lookup of the loss along the ray `x + t y` at the step sizes the line search visits (`t = 2^{-j}`) -/
+def rayValue (fx : Rat) (vals : List Rat) (t : Rat) : Rat :=
+  if t = 0 then fx else
+    match (List.range vals.length).find? (fun j => t = (1 : Rat) / ((2 : Rat) ^ j)) with
+    | some j => vals.getD j fx        -- index found by `find?` is in range
+    | none => fx
+
+end Drv
+
+open Drv QM.C10.Drv in
+def handle (args : List String) : Option String :=
+  match args with
+  | ["armijo", fx, slope, gamma, vals] => do
+      -- the line search on the ray: V = Rat (position t), x = 0, y = 1, f = table of real loss values, <y, grad> = slope
+      let fx ← parseRat? fx
+      let slope ← parseRat? slope
+      let gamma ← parseRat? gamma
+      let vals ← parseList? parseRat? vals
+      let f : Rat → Rat := rayValue fx vals
+      match backtrack (K := Rat) (V := Rat) f (fun _ => slope) (fun _ s => s) 0 1 gamma vals.length 1 with
+      | some a => some s!"alpha {showRat a}"
+      | none => some "none"
+  | ["cvxse", nums, ps, qs] => do
+      let nums ← parseList? parseRat? nums
+      let ps ← parseLists? ps
+      let qs ← parseLists? qs
+      if ps.length ≠ qs.length ∨ nums.length ≠ ps.length then none else
+      some s!"{showRat (cvxSquaredError (numRatios nums) ps qs)} {showRat (plainSquaredError ps qs)}"
+  | ["cvxre", nums, eps, ps, qs, logps, logqs] => do
+      -- logs are the implementation's kernel results, passed per entry (same shape as ps / qs)
+      let nums ← parseList? parseRat? nums
+      let eps ← parseRat? eps
+      let ps ← parseLists? ps
+      let qs ← parseLists? qs
+      let logps ← parseLists? logps
+      let logqs ← parseLists? logqs
+      if ps.length ≠ qs.length ∨ nums.length ≠ ps.length then none else
+      let table : List (Rat × Rat) := (ps.flatten.zip logps.flatten) ++ (qs.flatten.zip logqs.flatten)
+      let log : Rat → Rat := fun v => match table.find? (fun e => e.1 = v) with
+        | some e => e.2
+        | none => 0
+      some (showRat (cvxRelativeEntropy log eps (numRatios nums) ps qs))
+  | ["viastacked", v1, v2] => do
+      -- the 2-variable instance used by the negation witness: stacked = (v1, v2, 1 - v1 - v2), set {s1 >= 0}
+      let v1 ← parseRat? v1
+      let v2 ← parseRat? v2
+      let r := projViaStacked (W := Rat × Rat) (S := Rat × Rat × Rat) (fun v => (v.1, v.2, 1 - v.1 - v.2))
+        (fun s => if s.1 < 0 then (0, s.2.1 + s.1 / 2, s.2.2 + s.1 / 2) else s) (fun s => (s.1, s.2.1)) (v1, v2)
+      some s!"{showRat r.1} {showRat r.2}"
+  | _ => none
+
 end QM.C11
